@@ -4,7 +4,7 @@ CONSTANTS
   CandsId = "lo"
   NumChoices <- NC_small
   RunChoices <- RC_small
-  OtherChoices = {"sst", "label16", "bool", "blank", "fstr", "fshr", "fnum"}
+  OtherChoices = {"sst", "label16", "bool", "blank", "fstr", "fempty", "fshr", "fnum"}
   MaxCells = 3
   MaxRun = 3
   MaxIgn = 0
